@@ -15,8 +15,7 @@ LEVEL_NOTE = "Trusted: NumPy sums; scipy.optimize.minimize's own success flag fo
 RULE = "case = (method, N, L, height pattern, strength pattern, wind?, global RNG state class); non-trivial when N >= 3; distinct by profile digest and L"
 ASSUMPTIONS = ["1 <= L < N; heights sorted increasing", "GCTM only on profiles whose L equal-thickness slabs are all non-empty",
                "zero-strength output layers (empty slabs) carry no height information and are not judged"]
-REQUIRED = ["profile_compression.py:equivalent_layers", "profile_compression.py:optimal_grouping", "profile_compression.py:GCTM",
-            "profile_compression.py:_G", "profile_compression.py:_optGroupingMinimization"]
+REQUIRED = ["profile_compression.py:equivalent_layers", "profile_compression.py:optimal_grouping", "profile_compression.py:GCTM"]
 REQUIRED_COUNTERS = ["arange_rounding_class_cases", "global_rng_hostile_states", "jit_differential_groupings"]
 TIMEOUT = {"quick": 900, "thorough": 5400}
 
